@@ -243,3 +243,103 @@ def unicode_lookalikes():
                         out[im].append(c)
         _ulook[0] = out
     return _ulook[0]
+
+
+EDGE_CHARS = ["\n", "\r", "\r\n", " ", "\t", "\x0b", "\x0c", "\x00", "\x1c", "\x1d", "\x1e", "\x1f", "\x85", "\xa0",
+              "\u2028", "\u2029", "\ufeff", "\u200b", "\u3000"]
+
+
+def edge_variants(s):
+    """the text with ONE character put in front of it or behind it that a str method tolerates quietly: line
+    terminators (`$` in a regular expression matches before a final newline; `splitlines`), blanks and control
+    characters (`strip`, `split`, `int`), NUL, invisible characters.  A validator that accepts `s` must not accept
+    these unless the format allows the character."""
+    for c in EDGE_CHARS:
+        yield s + c
+        yield c + s
+    yield s + "\n\n"
+
+
+_nfkd_pairs = [None]
+
+
+def nfkd_boundary_texts(rng, count):
+    """texts on which NFKD is NOT the concatenation of the normal forms of the pieces: a character whose decomposition
+    ENDS in a combining mark followed by a character whose decomposition STARTS with a combining mark of a lower
+    class (canonical reordering across the boundary).  The second characters include the handful of characters that
+    are starters themselves but decompose into a leading non-starter (found by scanning the Unicode table), and plain
+    combining marks.  A per-character or per-chunk normaliser is wrong exactly here."""
+    import unicodedata as U
+    if _nfkd_pairs[0] is None:
+        A, B0, B1 = [], [], []
+        for cp in range(0x80, 0x30000):
+            if 0xD800 <= cp <= 0xDFFF:
+                continue
+            c = chr(cp)
+            d = U.normalize("NFKD", c)
+            if U.combining(d[-1]) > 0 and U.combining(c) == 0:
+                A.append(c)
+            if U.combining(d[0]) > 0:
+                (B1 if U.combining(c) > 0 else B0).append(c)
+        _nfkd_pairs[0] = (A, B0, B1)
+    A, B0, B1 = _nfkd_pairs[0]
+    out = []
+    for b in B0:                                   # every starter with a non-starter decomposition
+        found = 0
+        for _ in range(400):
+            a = rng.choice(A)
+            if U.normalize("NFKD", a + b) != U.normalize("NFKD", a) + U.normalize("NFKD", b):
+                out.append(a + b)
+                found += 1
+                if found == 2:
+                    break
+    tries = 0
+    while len(out) < count and tries < 20000:
+        tries += 1
+        a, b = rng.choice(A), rng.choice(B1 if rng.random() < 0.7 else B0)
+        t = a + b
+        if U.normalize("NFKD", t) != U.normalize("NFKD", a) + U.normalize("NFKD", b):
+            out.append(rng.choice(["", "x", "pass "]) + t + rng.choice(["", "y"]))
+    return out[:max(count, len(B0))]
+
+
+def bulk_interval_shapes(rng, normal_only=False):
+    """(arity, a, b, step) for `generate_children(interval)`: every tuple shape `range(*interval)` accepts — `(b,)`,
+    `(a, b)`, `(a, b, step)` with positive, negative and zero steps, empty, descending, crossing 2^31 in both directions"""
+    H = 2 ** 31
+    out = [(1, 0, 3, 0), (1, 0, 0, 0), (2, 2, 5, 0), (2, 5, 2, 0), (3, 0, 6, 2), (3, 6, 0, -2), (3, 5, 5, -1), (3, 2, 9, 4),
+           (3, 3, 0, -1), (3, 0, 3, 0), (3, 2, -3, -2), (3, H - 1, H - 4, -1), (3, H - 3, H, 2)]
+    if not normal_only:
+        out += [(3, H + 1, H - 3, -1), (3, 2 ** 32 - 1, 5, -(2 ** 30)), (3, H + 2, H - 1, -2), (3, H - 2, H + 2, 1),
+                (3, H - 2, H + 3, 3), (2, H - 1, H + 1, 0), (3, H, H - 2, -1), (1, 0, 2, 0)]
+    return out
+
+
+def bulk_oracle(line, out):
+    """`gen_step`: a bulk request answers like the single requests for the same indexes, in order; if any of them is
+    refused (hardened index on a public node, invalid child, negative or oversized index, step 0) the whole is refused"""
+    import impl
+    tok = line.split(" ")
+    spec, ar, a, b, st, prf = tok[1], int(tok[2]), int(tok[3]), int(tok[4]), int(tok[5]), tok[6]
+    if ar == 1:
+        a, st = 0, 1
+    elif ar == 2:
+        st = 1
+    v = ok_val(out)
+    if st == 0:
+        return None if v is None else "interval with step 0 answered"
+    want = []
+    for i in range(a, b, st):
+        if len(want) > 64:
+            return None
+        r = impl.run("ckd %s %d %s" % (spec, i, prf)) if 0 <= i < 2 ** 32 else "err"
+        if not r.startswith("ok "):
+            return None if v is None else ("bulk derivation over %s answered although the single request for index %d "
+                                           "is refused" % ((a, b, st), i))
+        want.append(r[3:])
+    if v is None:
+        return "bulk derivation over %s refused although every single request succeeds" % ((a, b, st),)
+    got = v[2:].split(" / ") if v.startswith("L ") else []
+    if got != want:
+        return "bulk derivation over %s differs from the single requests" % ((a, b, st),)
+    return None
